@@ -17,7 +17,7 @@ TABLE = [(f'op.{n}', f'={P1}{x}{P2}', e, 'operator table') for n, x, e in (
     ('lt', '<', f"self._compare('<', {P1}, {P2})"), ('gt', '>', f"self._compare('>', {P1}, {P2})"),
     ('le', '<=', f"self._compare('<=', {P1}, {P2})"), ('ge', '>=', f"self._compare('>=', {P1}, {P2})"),
     ('eq', '=', f"self._compare('==', {P1}, {P2})"), ('ne', '<>', f"self._compare('!=', {P1}, {P2})"),
-    ('amp', '&', f'str({P1}) + str({P2})'))]
+    ('amp', '&', f'self._excel_value_to_string({P1}) + self._excel_value_to_string({P2})'))]
 TABLE += [
     ('arith.inorder.add_mul', f'={P1}+{P2}*{P3}', f'{P1} + {P2} * {P3}', 'emitted in order; CPython precedence groups * first'),
     ('arith.inorder.mul_add', f'={P1}*{P2}+{P3}', f'{P1} * {P2} + {P3}', ''),
